@@ -269,11 +269,18 @@ def check_na(case):
     return res
 
 
+def _ideal_na(c):
+    # template-exact strands: added atoms are compared with the template without a distortion budget
+    for x in c["desc"]["na"]:
+        x["jitter"] = 0.0
+    return dict(c, part="na")
+
+
 def parts(tier):
     from . import c02
 
     return [
-        Part("na", check_na, strategy=c02.na_case().map(lambda c: dict(c, part="na")), budget=dict(quick=160, thorough=3000)),
+        Part("na", check_na, strategy=c02.na_case().map(_ideal_na), budget=dict(quick=160, thorough=3000)),
         Part("e2e", check, strategy=case(), budget=dict(quick=640, thorough=12000)),
         Part("windows", check, strategy=window_case(), budget=dict(quick=240, thorough=5000)),
     ]
